@@ -95,9 +95,14 @@ def gen_fit_data(rng, p, scale):
         dgms.append(d)
     # guarantee positive extent in birth and persistence
     flat = [q for d in dgms for q in d]
-    if max(q[0] for q in flat) - min(q[0] for q in flat) <= 0 or \
-            max(q[1] - q[0] for q in flat) - min(q[1] - q[0] for q in flat) <= 0:
-        dgms[0].append([flat[0][0] + 2 * p, flat[0][0] + 2 * p + (flat[0][1] - flat[0][0]) + 3 * p])
+    def ext(f):
+        v = [f(q) for q in flat]
+        return max(v) - min(v)
+    # positive extent in birth, in death (skew=False reads the second column as is) and in persistence
+    if ext(lambda q: q[0]) <= 0 or ext(lambda q: q[1]) <= 0 or ext(lambda q: q[1] - q[0]) <= 0:
+        hi_b = max(q[0] for q in flat)
+        hi_p = max(q[1] - q[0] for q in flat)
+        dgms[0].append([hi_b + 2 * p, hi_b + 2 * p + hi_p + 3 * p])
     single = nd == 1 and rng.random() < 0.5
     return {"dgms": dgms, "single": single, "skew": rng.random() < 0.7}
 
